@@ -472,6 +472,152 @@ func init() {
 				}
 				checkPurge(r, resolver, maps)
 			}
+			// QUAL-indexed sums: the locally validated maps are the only membership
+			// criterion. A sum that additionally consults the live member status drops
+			// the contribution of a QUAL member that misbehaved later — exactly the
+			// members whose key is reconstructed and added by everybody else.
+			r.Rule("C02.qual-sum", "sums over the QUAL maps are unconditional and read no live member status", 3)
+			for _, n := range []string{"QualifiedMember.CombineMemberShares", "CombiningMember.CombineGroupPublicKey", "SharingMember.receivedValidPeerIndividualPublicKeys", "CombiningMember.ComputeGroupPublicKeyShares"} {
+				fn := r.MustFn("C02.qual-sum", gjkrRel, n)
+				if fn == nil {
+					continue
+				}
+				for _, f := range WithClosures(fn) {
+					for _, l := range Loops(f) {
+						// loops ranging over a member map
+						var rg *ssa.Range
+						for _, in := range l.Header.Instrs {
+							if nx, ok := in.(*ssa.Next); ok {
+								rg, _ = nx.Iter.(*ssa.Range)
+							}
+						}
+						if rg == nil || fieldOfLookup(rg.X) == "" {
+							continue
+						}
+						field := fieldOfLookup(rg.X)
+						reach := closureOfCalls(l.Blocks, 4)
+						reads := callsIn(l.Blocks, reach, groupLiveReads, nil)
+						construct := FnName(f) + "#sum-over/" + field
+						if len(reads) > 0 {
+							r.Fail("C02.qual-sum", construct, reads[0].Call.Pos(), "the sum over "+field+" consults the live member status ("+shortCallee(reads[0].Call)+"): a QUAL member disqualified later is left out here although its reconstructed key is added to the group key", nil, nil)
+							continue
+						}
+						// unconditional accumulation for the plain sums (the key-share computation legitimately branches on the points lookup)
+						if !strings.HasSuffix(n, "ComputeGroupPublicKeyShares") {
+							cond := false
+							for b := range l.Blocks {
+								if _, isIf := b.Instrs[len(b.Instrs)-1].(*ssa.If); isIf && b != l.Header {
+									cond = true
+								}
+							}
+							if cond {
+								r.Fail("C02.qual-sum", construct, rg.Pos(), "an element of "+field+" can be skipped by a condition inside the summing loop", nil, nil)
+								continue
+							}
+						}
+						r.Ok("C02.qual-sum", construct, rg.Pos(), "every entry of "+field+" contributes")
+					}
+				}
+			}
+			// no loop-carried machine-integer products in the key arithmetic: member
+			// ids are small but products over a group overflow int64 from ~21 factors
+			// QUAL is frozen after its resolution phase: the locally validated maps are
+			// written only by the phase that fills them and by the resolution method
+			// of the following phase (and helpers only it calls). A later deletion
+			// silently removes a member from sums that everybody else still makes.
+			r.Rule("C02.qual-frozen", "QUAL maps are written only by their filling phase and the following resolution", 3)
+			for filler, maps := range byFiller {
+				if filler.Signature.Results().Len() == 0 {
+					continue
+				}
+				accType := filler.Signature.Results().At(0).Type()
+				var resolver *ssa.Function
+				for _, j := range judgingMethods(r.W) {
+					for _, p := range messageSliceParams(j) {
+						if types.Identical(p.Type().Underlying().(*types.Slice).Elem(), accType) && !strings.HasSuffix(j.Name(), "MarkInactiveMembers") {
+							resolver = j
+						}
+					}
+				}
+				for _, field := range maps {
+					for _, f := range gjkrFuncs(r.W) {
+						writes := false
+						EachInstr(f, func(in ssa.Instruction) {
+							switch x := in.(type) {
+							case *ssa.MapUpdate:
+								if fieldOfLookup(x.Map) == field {
+									writes = true
+								}
+							case *ssa.Call:
+								if b, ok := x.Call.Value.(*ssa.Builtin); ok && b.Name() == "delete" {
+									d := Desc(x.Call.Args[0])
+									if fieldOfLookup(x.Call.Args[0]) == field || strings.HasSuffix(d, "."+field) {
+										writes = true
+									}
+								}
+							}
+						})
+						if !writes {
+							continue
+						}
+						top := f
+						for top.Parent() != nil {
+							top = top.Parent()
+						}
+						ok := top == filler || top == resolver
+						why := "filling phase / resolution method"
+						if !ok && resolver != nil {
+							// helper called only from the resolver
+							sites := r.W.Callers(top)
+							ok = len(sites) > 0
+							for _, s := range sites {
+								st := s.Parent()
+								for st.Parent() != nil {
+									st = st.Parent()
+								}
+								if st != resolver {
+									ok = false
+									why = "also called from " + FnName(st)
+								}
+							}
+							if ok {
+								why = "helper called only from " + FnName(resolver)
+							}
+						}
+						// initialisation of the map itself (constructor / phase initialiser) is not a membership change
+						if !ok && strings.HasPrefix(top.Name(), "Initialize") {
+							ok, why = true, "phase initialiser"
+						}
+						r.Cond(ok, "C02.qual-frozen", FnName(f)+"#writes/"+field, f.Pos(), field+" may change only in "+FnName(filler)+" and the resolution that follows it; "+why)
+					}
+				}
+			}
+			r.Rule("C02.bigint-arith", "no loop-carried machine-integer product in the GJKR arithmetic (big.Int only)", 5)
+			for _, f := range gjkrFuncs(r.W) {
+				usesBig := len(CallsMatching(f, `^math/big\.`)) > 0
+				if !usesBig {
+					continue
+				}
+				for _, l := range Loops(f) {
+					bad := ""
+					for _, in := range l.Header.Instrs {
+						phi, ok := in.(*ssa.Phi)
+						if !ok || !isIntType(phi.Type()) {
+							continue
+						}
+						for i, e := range phi.Edges {
+							if !l.Blocks[l.Header.Preds[i]] {
+								continue
+							}
+							if bo, ok := stripConv(e).(*ssa.BinOp); ok && (bo.Op.String() == "*" || bo.Op.String() == "<<") && (dependsOn(bo.X, phi, nil) || dependsOn(bo.Y, phi, nil)) {
+								bad = phi.Comment
+							}
+						}
+					}
+					construct := fmt.Sprintf("%s#loop@block%d", FnName(f), l.Header.Index)
+					r.Cond(bad == "", "C02.bigint-arith", construct, l.Header.Instrs[0].Pos(), "machine-integer product carried around the loop: "+bad+" (overflows silently for larger groups; every member computes the same wrong value, so agreement hides it)")
+				}
+			}
 			if fn := r.MustFn("C02.lagrange-domain", gjkrRel, "ReconstructingMember.reconstructIndividualPrivateKeys"); fn != nil {
 				n := 0
 				for _, c := range Sites(fn, `calculateLagrangeCoefficient$`, false) {
